@@ -880,6 +880,23 @@ func ctors() []ctor {
 				return bytes.Clone(rec.last[:len(in[0])])
 			}, nil
 		}, []int{7}},
+		{"signature/subtle.NewED25519SignerFromPrivateKey(*key)", func(in [][]byte) (func() []byte, error) {
+			key := ed25519.PrivateKey(in[0]) // the caller's key object lives in the guarded buffer
+			s, err := sigsubtle.NewED25519SignerFromPrivateKey(&key)
+			if err != nil {
+				return nil, err
+			}
+			return func() []byte { c, _ := s.Sign(fixedMsg); return c }, nil
+		}, []int{64}},
+		{"signature/subtle.NewED25519VerifierFromPublicKey(*key)", func(in [][]byte) (func() []byte, error) {
+			key := ed25519.PublicKey(in[0])
+			v, err := sigsubtle.NewED25519VerifierFromPublicKey(&key)
+			if err != nil {
+				return nil, err
+			}
+			sig := ed25519.Sign(ed25519FixedKey(), fixedMsg)
+			return func() []byte { return []byte(fmt.Sprint(v.Verify(sig, fixedMsg))) }, nil
+		}, []int{32}},
 		{"signature/subtle.NewED25519Verifier", func(in [][]byte) (func() []byte, error) {
 			v, err := sigsubtle.NewED25519Verifier(in[0])
 			if err != nil {
